@@ -58,6 +58,8 @@ def plan(tier, seed):
         groups = (n + 7) // 8 + (1 if n % 8 == 0 else 0)     # writer pads a whole zero byte when n % 8 == 0
         lv.append(("hybrid", dict(width=1, runs=[["bp", max(groups, 1)]], itemsize=1, cap=n, prefix_len=True)))
     jobs.append(dict(name="C01-L4-level-decode", kind="llsym", payload=lv, timeout=600))
+    jobs.append(dict(name="C01-lemma-json-cells", kind="pyfunc", timeout=300,
+                     payload=dict(func="vf.pyshim.lemma_tables:json_cells")))
     extra = dict(
         explanation="Reduced claim: the places where writer and reader must agree on framing. Row-group split (real "
                     "iter_dataframe: slices tile [0,n)), page split and counts (real write_column lattice), "
